@@ -244,7 +244,8 @@ class PropertyDescriptor(Symbol):
                     self.domain, self.wrapped_field.name, type(value)
                 )
             monitored_value = monitored_type(descriptor=self)
-            for v in make_set(value):
+            # not make_set: the elements need not be hashable
+            for v in make_list(value):
                 monitored_value._add_item(v, inferred=False)
             value = monitored_value
         return value
